@@ -345,16 +345,41 @@ pub fn check(tier: Tier) -> i32 {
             }
         }),
     );
+    // record-count ladder around powers of two: all-success histories, far beyond the explorer's depth
+    let mut ladder_ctx = Ctx::new();
+    for (ti, ty) in types.iter().enumerate().take(3) {
+        for n in [255usize, 256, 257, 1023, 1024, 1025, 2049] {
+            let case = Case { ty: *ty, disk: n == 1025, ops: (0..n).map(|i| POp::Good(((i * 5 + i / 3) % 2) as u8)).collect() };
+            let mut hh = Fnv::new();
+            hh.str(&format!("ladder{}{}", ty.name(), n));
+            match catch(|| observe(&pals[ti], &case)) {
+                Ok(o) => {
+                    ladder_ctx.lib_calls += 2 * n as u64 + 4;
+                    ladder_ctx.traces += 1;
+                    let mut oh = Fnv::new();
+                    oh.bytes(&o.shx);
+                    ladder_ctx.case_done(hh.finish(), true, oh.finish());
+                    for (sig, d) in judge(&pals[ti], &case, &o) {
+                        let cj = json!({"ty": case.ty.name(), "disk": case.disk, "ops": pops_name(&case.ops)});
+                        ladder_ctx.violation(format!("ladder:{}", sig), || cj, || format!("{} pairs: {}", n, d));
+                    }
+                }
+                Err(p) => ladder_ctx.violation(format!("ladder:harness-or-drop-panic:{}", p.sig()), || json!({"ty": ty.name(), "n": n}), || p.msg.clone()),
+            }
+        }
+    }
     super::c01_c02::cleanup_scratch();
     let st = selftest(&pals, &types);
-    let agg = merge(res.ctxs);
+    let mut ctxs = res.ctxs;
+    ctxs.push(ladder_ctx);
+    let agg = merge(ctxs);
     finish(
         RunInfo {
             prop: "C08",
             tier,
             level: "model_checking",
             engine: "E1 stateright BFS over write-call histories on the real complete Writer (three instrumented devices / from_path), read back with the real complete Reader",
-            rule: "every history up to the depth bound over {OkA, OkB, BadType, RowMissingField, RowWrongType, RowWrongFirstField} (first call accepted), rows carry the position of their call; in memory to the full depth, through Writer::from_path + shapefile::read / Reader::from_path to depth 3; non-trivial = >= 2 calls",
+            rule: "every history up to the depth bound over {OkA, OkB, BadType, RowMissingField, RowWrongType, RowWrongFirstField} (first call accepted), rows carry the position of their call; in memory to the full depth, through Writer::from_path + shapefile::read / Reader::from_path to depth 3; plus all-success histories of 255..2049 pairs (record-count ladder around powers of two, 1025 also by path); non-trivial = >= 2 calls",
             bounds: json!({"depth": depth, "disk_depth": disk_depth, "types": types.iter().map(|t| t.name()).collect::<Vec<_>>(), "alphabet": POPS.iter().map(|p| p.name()).collect::<Vec<_>>()}),
             exhaustive: true,
             assumptions: vec!["dbf tables without deleted rows; entry counts are read by the harness from the raw bytes (RefCodec scan, .shx parse, .dbf header bytes 4..8)".into()],
